@@ -377,13 +377,23 @@ def run_body(interp: Interp, st: Structure, sib_or_cell: Lin, r_hint: int, prese
     finally:
         interp.unroll_ranges = saved
     paths: List[BodyPath] = []
+
+    def base(v):
+        # guards such as `i > 0` narrow the range of the index symbol; a narrowed symbol is the same quantity
+        for _ in range(8):
+            lins = [v] if isinstance(v, Lin) else ([v.left, v.right] if isinstance(v, CondV) else [])
+            narrowed = [(sy, b) for l in lins for sy in l.syms() for b in (i, n) if sy.name == b.name and sy.key != b.key]
+            if not narrowed:
+                break
+            v = subst_value(v, narrowed[0][0], narrowed[0][1])
+        return v
     for s2, sig in outs:
         e2 = s2.frames[0]
         r2 = e2.get(st.result)
-        appended = [sg.elem for sg in r2.segs] if isinstance(r2, ListV) and not r2.unknown else [Unknown("result list")]
+        appended = [base(sg.elem) for sg in r2.segs] if isinstance(r2, ListV) and not r2.unknown else [Unknown("result list")]
         idx2 = e2.get(st.idx)
-        adv = (idx2 - Lin.of(i)) if isinstance(idx2, Lin) else Unknown("index")
-        bp = BodyPath(appended, adv, e2.get(st.flag), [(c, t) for c, t, _ in s2.path], sig, list(s2.effects), list(s2.notes))
+        adv = (base(idx2) - Lin.of(i)) if isinstance(idx2, Lin) else Unknown("index")
+        bp = BodyPath(appended, adv, e2.get(st.flag), [(base(c), t) for c, t, _ in s2.path], sig, list(s2.effects), list(s2.notes))
         bp.carried = {k: e2.get(k) for k in (preset or {})}
         paths.append(bp)
     return paths
